@@ -169,19 +169,19 @@ Proof. vm_compute. repeat split. Qed.
 
 (* create records the workload after the pod lock is released: RemoveNode finds the node empty and removes it *)
 Theorem refuted_create_removenode :
-  quiescent_bad W2 [(OCreate "n" "x", None); (ORemoveNode "n", None)] [0; 0; 0; 0; 0; 0; 1; 1; 1; 1; 1; 1; 1; 0].
+  quiescent_bad W2 [(OCreate "n" "x", None); (ORemoveNode "n", None)] [0; 0; 0; 0; 0; 0; 1; 1; 1; 1; 1; 1; 1; 1; 1; 0].
 Proof. vm_compute. repeat split. Qed.
 
 (* ... after which listing the workloads of the application fails (GetWorkloads cannot bind the node) *)
 Example dangling_workload_unlistable :
   let '(w', _, _) := run_sched W2 (mk_threads [(OCreate "n" "x", None); (ORemoveNode "n", None)])
-                       [0; 0; 0; 0; 0; 0; 1; 1; 1; 1; 1; 1; 1; 0] [] in
+                       [0; 0; 0; 0; 0; 0; 1; 1; 1; 1; 1; 1; 1; 1; 1; 0] [] in
   match exec w' 0 (CGetWl "x") with Some (_, r) => r_ok r = false | None => False end.
 Proof. vm_compute. reflexivity. Qed.
 
 (* single injected failure: RemoveNode's plugin removal fails after the store record is gone *)
 Theorem refuted_removenode_fault :
-  quiescent_bad W2 [(ORemoveNode "n", Some 4)] [0; 0; 0; 0; 0; 0; 0; 0; 0].
+  quiescent_bad W2 [(ORemoveNode "n", Some 6)] [0; 0; 0; 0; 0; 0; 0; 0; 0; 0; 0].
 Proof. vm_compute. repeat split. Qed.
 
 (* the three-operation race found by exploring triples (a RemoveNode acting on
@@ -190,7 +190,7 @@ Proof. vm_compute. repeat split. Qed.
    ends in a consistent world *)
 Example stale_removenode_closed :
   let '(w', ts', _) := run_sched W2 (mk_threads [(OAddNode "n" "p", None); (ORemoveNode "n", None); (ORemoveNode "n", None)])
-                         [2; 1; 1; 1; 1; 1; 1; 1; 0; 2; 2; 2; 2; 2; 0; 0] [] in
+                         [2; 1; 1; 1; 1; 1; 1; 1; 1; 1; 0; 2; 2; 2; 2; 2; 0; 0] [] in
   forallb finished ts' = true /\ ref_ok w' = true.
 Proof. vm_compute. split; reflexivity. Qed.
 
